@@ -26,11 +26,12 @@ RULE = ("geometry: (48 signed permutations + 2 rotations + shear + "
         "x1; thorough: 4x3x3); layout: 3-D / 4-D(2) / 4-D(3) / RGB x stored "
         "dtypes {u8,i8,i16,u16,i32,u32,u64,f32,f64} x header scaling {none, "
         "(2,1), (1,-1024), (1,0.5), (0.5,0)} x ignore_scaling x input_max "
-        "on 3 affines; sharding strings {None, '1,1,0', '0,0,0', '2,3,1', "
+        "on 3 affines; headers whose qform/pixdim differ from the sform; sharding strings {None, '1,1,0', '0,0,0', '2,3,1', "
         "malformed...} x gzip. Checks: info size/channels/resolution/"
         "data_type, imperfect-type status, files == return values, "
         "T*((i+0.5)*res) == 1e6*A*i on the 27 voxels {0,1,n-1}^3, compact "
-        "URL form parses back to the same matrix. Non-trivial: the affine "
+        "URL form parses back to the same matrix, a second call on the same "
+        "image object gives the same result and leaves the image unchanged. Non-trivial: the affine "
         "is not diagonal-positive or the voxel size is anisotropic.")
 ASSUMPTIONS = [
     "NIfTI affines map voxel indices to millimetres at voxel centres; "
@@ -129,6 +130,15 @@ def _eval_in(col, case, d):
     img.header.set_data_dtype(arr.dtype)
     if sc is not None:
         img.header.set_slope_inter(*sc)
+    if case.get("qform_differs"):
+        # a registered image: the sform (which readers prefer) carries
+        # another scale than the scanner geometry kept in qform / pixdim
+        Aq = np.eye(4)
+        Aq[:3, :3] = np.diag([1.0, 1.0, 1.0])
+        Aq[:3, 3] = [1, 2, 3]
+        img.header.set_qform(Aq, code=1)
+        img.header.set_sform(A, code=4)
+        img = nibabel.Nifti1Image(arr, None, img.header)
     nibabel.save(img, path)
     # the reference is the affine the FILE states (NIfTI stores it in
     # float32), not the float64 matrix it was built from
@@ -231,6 +241,33 @@ def _eval_in(col, case, d):
             bad("transform/voxel-centre-not-mapped-to-the-affine-position",
                 "T((i+0.5)*res) == 1e6 * A i within 1e-9 relative",
                 {"voxel": worst_i, "error_nm": worst})
+    # the same image object used again must give the same answer, and the
+    # generator must not modify the image it is given
+    try:
+        img2 = nibabel.load(path)
+        a_before = np.array(img2.affine, copy=True)
+        with sandbox.quiet():
+            first = volume_reader.nibabel_image_to_info(
+                img2, ignore_scaling=case["ignore_scaling"],
+                input_min=None, input_max=case["input_max"], options=opts)
+            second = volume_reader.nibabel_image_to_info(
+                img2, ignore_scaling=case["ignore_scaling"],
+                input_min=None, input_max=case["input_max"], options=opts)
+        if not np.array_equal(np.array(img2.affine), a_before):
+            bad("image-object-modified/affine", a_before.tolist(),
+                np.array(img2.affine).tolist())
+        if (json.loads(first[0]) != json.loads(second[0])
+                or not np.array_equal(np.array(first[1], dtype=float),
+                                      np.array(second[1], dtype=float))):
+            bad("second-call-on-the-same-image-differs",
+                "identical info and transform", "different")
+        if json.loads(first[0]) != info or not np.allclose(
+                np.array(first[1], dtype=float), T, rtol=0, atol=0):
+            bad("function-result-differs-from-the-written-files",
+                "same info and transform as the files", "different")
+    except Exception as exc:
+        bad("repeat/exception/" + type(exc).__name__, "info",
+            repr(exc)[:200])
     # compact URL form
     try:
         txt = tr.matrix_as_compact_urlsafe_json(T.tolist())
@@ -269,6 +306,14 @@ def cases(tier):
                         "scaling": None, "ignore_scaling": False,
                         "input_max": None,
                         "nontrivial": (not diagpos) or len(set(v)) > 1})
+    for name, m in (mats[0], mats[9], mats[49], mats[51]):
+        for v in ((1.1, 0.9, 1.25), (2, 2, 2)):
+            out.append({
+                "kind": "geometry", "direction": name,
+                "affine": make_affine(m, v, (5, -7, 11)).tolist(),
+                "shape": [3, 4, 5], "layout": "3d", "dtype": "uint8",
+                "scaling": None, "ignore_scaling": False, "input_max": None,
+                "qform_differs": True, "nontrivial": True})
     three = [mats[0], mats[17], mats[49]]
     scalings = [None, (2.0, 1.0), (1.0, -1024.0), (1.0, 0.5), (0.5, 0.0),
                 (1.0, 0.0)]
